@@ -22,14 +22,16 @@ from common import Ctx, REPO, VERIF, run_driver
 from translate import hash_sites
 
 PROP = "C14"
-LEAN_MODULE = "TopSearch.Props.C14"
-LEAN_FILES = ["TopSearch.Props.C14", "TopSearch.Lemmas.Parallel", "TopSearch.Model.Parallel"]
+LEAN_MODULE = "TopSearch.Props.C14Coords"
+LEAN_FILES = ["TopSearch.Props.C14", "TopSearch.Props.C14Coords", "TopSearch.Lemmas.Parallel", "TopSearch.Lemmas.AlignCoords",
+              "TopSearch.Model.Parallel"]
 EXTRA_TARGETS = ["TopSearch.Model.Parallel", "TopSearch.Gen.HashSites"]
 P = "TopSearch.Props.C14."
 REQUIRED = [P + n for n in ["C14_pool_order", "C14_parallel_merge", "C14_schedule_independent",
                             "C14_failed_skipped", "C14_sites_justified",
                             "C14_string_set_order_irrelevant", "C14_parallel_is_roundParallel",
-                            "C14_bridge_dispatch"]]
+                            "C14_bridge_dispatch", "C14_assembleCoords_order_irrelevant",
+                            "C14_working_copy_read_order_dependent"]]
 RULE = ("cases = (worker count, delay pattern) runs of the real fork pool / real parallel round compared "
         "with the model fed the observed completion order, and (pipeline, RNG seed, hash seed) interpreter "
         "runs compared by digest; non-trivial = the completion order differs from the task order (or >= 2 "
